@@ -564,6 +564,8 @@ def run_world_case(case, horizon):
                     evaluate_rest(mon, world, rested, horizon, trace)
                     if mon.broken:
                         stop = True
+        except Livelock:
+            pass                    # recorded as C05:zero_time_livelock by the loop hook; the case ends here
         except MpfCrash as e:
             crashed = repr(e)
             if "CaseTimeout" in crashed:
@@ -719,6 +721,10 @@ def evaluate_rest(mon, world, rested, horizon, trace):
                 sig += "_no_source_sends_one"
                 if mon.missing_events:
                     sig += "_after_lost_ball_handling"      # cancel_path / restore-path bookkeeping
+                    if _skip_race_config(mon.topo):
+                        # a mechanical device's eject timeout == its feeder's ball_missing_timeout: the skip wait
+                        # and the lost-ball path run in the same instant
+                        sig += "_skip_and_missing_timeout_same_instant"
                 elif mon.mech_idle_ejects.get(n) or mon.idle_skips.get(n):
                     sig += "_stale_available_balls"
         elif st == "waiting_for_target_ready" and tname in world.devs and \
